@@ -79,7 +79,7 @@ def scope_sqlite(prog, rep, methods=None, rule="SCOPE"):
     rep.rule(rule, "in a storage method that takes the bucket id, every statement, at every query level that ranges over event rows, carries the conjunct 'row belongs to the addressed bucket' with the bucket key bound to that parameter (sqlite: bucketrow = (SELECT rowid FROM buckets WHERE id = ?bucket); INSERT: the bucketrow value is that sub-select; bucket-level statements: WHERE id = ?bucket). peewee: .where(EventModel.bucket == self.bucket_keys[bucket]) or save() on an instance that came from such a select. memory: self.db / self._metadata are indexed by the bucket parameter only.")
     cls = prog.cls("SqliteStorage")
     sites = [s for s in sql_sites(prog) if s.fi.cls is cls]
-    rep.floor("sqlite execute sites in SqliteStorage", len(sites), 20)
+    rep.floor("sqlite execute sites in SqliteStorage", len(sites), 14)
     n_levels = 0
     for s in sites:
         fi = s.fi
@@ -250,7 +250,7 @@ def _instance_provenance(name, fi, prog):
 def scope_peewee(prog, rep, methods=None, rule="SCOPE"):
     cls = prog.cls("PeeweeStorage")
     chains = [c for c in peewee_chains(prog) if c.fi.cls is cls]
-    rep.floor("peewee query chains in PeeweeStorage", len(chains), 13)
+    rep.floor("peewee query chains in PeeweeStorage", len(chains), 9)
     helpers_scoped = {}
     for ch in chains:
         fi = ch.fi
@@ -489,7 +489,7 @@ def scope_memory(prog, rep, methods=None, rule="SCOPE"):
                 else:
                     rep.violation(rule, fi.short, f"{norm(p)[:60]}", "per-bucket container used as a whole (not through the bucket parameter): can reach other buckets' state", fi.loc(n))
     if methods is None:
-        rep.floor("memory container uses", n_sites, 15)
+        rep.floor("memory container uses", n_sites, 10)
     return n_sites
 
 
@@ -534,7 +534,7 @@ def forward_bucket(prog, rep, rule="FORWARD"):
                     if norm(t) == "self.bucket_id":
                         ok = fi.name == "__init__" and isinstance(a, ast.Assign) and is_param_ref(a.value, fi, "bucket_id")
                         rep.check(ok, rule, fi.short, "self.bucket_id =", "set once from the constructor argument", "self.bucket_id re-assigned", fi.loc(a))
-    rep.floor("Bucket -> storage forwarding sites", n, 8)
+    rep.floor("Bucket -> storage forwarding sites", n, 6)
     ds = prog.cls("Datastore")
     for name in ("create_bucket", "update_bucket", "delete_bucket"):
         fi = ds.methods.get(name)
